@@ -126,6 +126,17 @@ func encNames(names []nameRef) string {
 }
 
 var c06Seeds = []string{
+	// spellings seeded changes needed: a tab after the script keyword; the dots of a spread attribute on a later line
+	"package main\n\nscript\thello(name string) {\n\tconsole.log(name);\n}\n\ntempl T() {\n\t<p>x</p>\n}\n",
+	"package main\nscript\t(",
+	"package x\n\ntempl T(a templ.Attributes) {\n\t<div { a\n\t\t... }>x</div>\n\t<p { a ... }>y</p>\n\t<i { a... }>z</i>\n}\n",
+	"package x\r\n\r\ntempl T(a templ.Attributes) {\r\n\t<div if true {\r\n\t\t{ a\r\n\t\t\t... }\r\n\t}>x</div>\r\n}\r\n",
+	// witnesses of repaired defects: Unicode white space in front of a top-level Go block; a doc comment block; (an invalid
+	// UTF-8 byte inside Go code is now rejected by templ generate, so it cannot appear in an accepted file)
+	"package x\n\n\u00a0var x = 1\n\ntempl t() {\n\t<p></p>\n}\n",
+	"package main\n\nvar x = \"a\xffb\" + \"tail\"\n\ntempl t() {\n\t<p>{ x }</p>\n}\n",
+	"package main\n\ntempl t(x string) {\n\t<p>{ x /* \xff */ + \"tail\" }</p>\n}\n",
+	"package x\n\n\u2003\u00a0import \"fmt\"\n\nvar y = fmt.Sprint\n// doc\ntempl t() {\n\t<p>{ y(1) }</p>\n}\n\nvar z = 2\n",
 	"package x\n\ntempl  Hello(name  string)  {\n\t<p>{ name }</p>\n}\n\ncss  red()  {\n\tcolor: red;\n}\n\nscript  sc(a string)  {\n\tconsole.log(a);\n}\n\ntempl (p  P)  M() {\n\t@Hello(\"x\")\n}\n",
 	"package x\n\ntempl T(s string) {\n\t<p>é日本 { s } 😀{ s }</p>\n}\n",
 	"package x\r\n\r\ntempl T(s string) {\r\n\t<div class={ \"a\",\r\n\t\ts }>x</div>\r\n}\r\n",
@@ -194,7 +205,8 @@ func runC06(e *emitter, tier string, seed uint64) {
 	// truncations and structure-aware mutations
 	tokens := []string{"{", "}", "{{", "}}", "<", ">", "</", "/>", "\"", "'", "`", "@", "if ", "else", "for ", "switch ", "case ", "templ ", "css ", "script ", "<!--", "-->", "//", "/*", "*/",
 		"é", "日本", "\r\n", "\n", "\t", "{ children... }", "{!", "...", "=", "?=", "\xff", "\x00", "(", ")", "<script>", "</script>", "<style>", "func", "package ", "import \"",
-		"@func", "@func()", "@f(func(int) string(nil))", "@a.b(func() {})", "templ  X() {\n}\n", "css  c() {\n}\n", "script  s() {\n}\n", "templ\tY(a  string)  {\n}\n", "@x.y(", "{ f(", "{{ a :=", "`", "'\\''"}
+		"@func", "@func()", "@f(func(int) string(nil))", "@a.b(func() {})", "templ  X() {\n}\n", "css  c() {\n}\n", "script  s() {\n}\n", "templ\tY(a  string)  {\n}\n", "@x.y(", "{ f(", "{{ a :=", "`", "'\\''",
+		"script\thello(name string) {\n", "\nscript\t(", "\ncss\tc() {\n}\n", "\ntempl\tZ() {\n}\n", " ... }", "\n\t\t... }", "{ a ... }", "{ a\n... }"}
 	nm := 4000
 	if tier == "thorough" {
 		nm = 200000
